@@ -74,7 +74,7 @@ def drop_panic_pass(ctx, prop="C05", paths=None):
 
 def run(ctx):
     layout_corr.run_property(ctx, "C05", MODULE, ASSUME,
-                             extra_modules=["TriompheModel.Props.C05Hist", "TriompheModel.Proofs.HistLen"])
+                             extra_modules=["TriompheModel.Props.C05Hist", "TriompheModel.Proofs.HistLen", "TriompheModel.Props.ApiShape"])
     # history clause: every dealloc event carries the layout of the block's alloc event, along
     # histories over every handle kind / conversion path (theorem C05_dealloc_layout_invariant);
     # the correspondence compares allocator events of the real crate with the model's
